@@ -182,3 +182,26 @@ def classify_diff(a, b):
     for u in set(da) & set(db):
         md(da[u], db[u])
     return tuple(sorted(kinds))
+
+
+def touch(doc):
+    """call every read-only public accessor of every record (args, formal_attributes, extra_attributes, label,
+    value, repr, get_attribute of each formal name, get_asserted_types): reading must not change what a later
+    export prints"""
+    recs = list(doc.get_records())
+    for b in doc.bundles:
+        recs.extend(b.get_records())
+    for r in recs:
+        r.args
+        r.formal_attributes
+        r.extra_attributes
+        r.label
+        r.value
+        repr(r)
+        str(r.identifier)
+        r.get_asserted_types()
+        for a in r.FORMAL_ATTRIBUTES:
+            r.get_attribute(a)
+        if hasattr(r, "get_startTime"):
+            r.get_startTime()
+            r.get_endTime()
